@@ -75,6 +75,23 @@ TYPED_SPECS = [
          inputs={"mueff": ("mueff", "Rat"), "self.solution_dim": ("n", "Rat")},
          vars=[("mueff", "Rat"), ("n", "Rat")], result="Rat")
     for nm in ("cc", "cs", "c1", "cmu")
+] + [
+    # number of parents handed to the optimizer (C10 / C19): `new_sols if rule == "filter" else batch_size // 2`
+    dict(name=nm, file=f, func=fn, assign="num_parents", nth=0,
+         inputs={"self._selection_rule == 'filter'": ("isFilter", "Bool"), "new_sols": ("ins", "Nat"),
+                 "self._batch_size": ("b", "Nat")},
+         vars=[("isFilter", "Bool"), ("ins", "Nat"), ("b", "Nat")], result="Nat")
+    for nm, f, fn in (("esNumParents", "ribs/emitters/_evolution_strategy_emitter.py", "EvolutionStrategyEmitter.tell"),
+                      ("gaeNumParents", "ribs/emitters/_gradient_arborescence_emitter.py",
+                       "GradientArborescenceEmitter.tell"))
+] + [
+    # the UCB1 score of a previously selected emitter (C16); sqrt and log are uninterpreted
+    dict(name="ucb1", file="ribs/schedulers/_bandit_scheduler.py", func="BanditScheduler.ask",
+         assign="ucb1[update_ucb]", nth=0,
+         inputs={"self._success[update_ucb]": ("s", "Rat"), "self._selection[update_ucb]": ("k", "Rat"),
+                 "self._zeta": ("z", "Rat"), "self._success.sum()": ("tot", "Rat")},
+         vars=[("sq", "Rat → Rat"), ("ln", "Rat → Rat"), ("s", "Rat"), ("k", "Rat"), ("z", "Rat"), ("tot", "Rat")],
+         result="Rat"),
 ]
 
 SL_SPECS = [
@@ -236,6 +253,12 @@ def sl_expr(node, sym, assigns=None, depth=0):
                 raise Untranslatable(f"exponent {ast.unparse(node.right)} is not a natural number")
             return f"({rat(b, bt)} ^ {e})", "Rat"
         ops = {ast.Add: "+", ast.Sub: "-", ast.Mult: "*", ast.Div: "/"}
+        if isinstance(node.op, ast.FloorDiv):
+            a, at = sl_expr(node.left, sym, assigns, depth + 1)
+            b, bt = sl_expr(node.right, sym, assigns, depth + 1)
+            if {at, bt} <= {"Nat", "Lit"}:
+                return f"({a} / {b})", "Nat"                      # `//` of naturals = Nat division
+            raise Untranslatable("`//` that is not over naturals")
         if type(node.op) not in ops:
             raise Untranslatable(f"operator {type(node.op).__name__}")
         a, at = sl_expr(node.left, sym, assigns, depth + 1)
@@ -258,10 +281,23 @@ def sl_expr(node, sym, assigns=None, depth=0):
             a, at = sl_expr(node.args[0], sym, assigns, depth + 1)
             b, bt = sl_expr(node.args[1], sym, assigns, depth + 1)
             return f"(if {rat(a, at)} ≤ {rat(b, bt)} then {rat(a, at)} else {rat(b, bt)})", "Rat"
-        if fn == "np.sqrt" and len(node.args) == 1:
+        if fn == "max" and len(node.args) == 2:
+            a, at = sl_expr(node.args[0], sym, assigns, depth + 1)
+            b, bt = sl_expr(node.args[1], sym, assigns, depth + 1)
+            return f"(if {rat(a, at)} ≤ {rat(b, bt)} then {rat(b, bt)} else {rat(a, at)})", "Rat"
+        if fn in ("np.sqrt", "np.log") and len(node.args) == 1 and not node.keywords:
             e, t = sl_expr(node.args[0], sym, assigns, depth + 1)
-            return f"(sq {rat(e, t)})", "Rat"
+            return f"({'sq' if fn == 'np.sqrt' else 'ln'} {rat(e, t)})", "Rat"
         raise Untranslatable(f"call {fn}(...)")
+    if isinstance(node, ast.IfExp):
+        ttext = ast.unparse(node.test)
+        if ttext not in sym or sym[ttext][1] != "Bool":
+            raise Untranslatable(f"condition {ttext[:60]}")
+        a, at = sl_expr(node.body, sym, assigns, depth + 1)
+        b, bt = sl_expr(node.orelse, sym, assigns, depth + 1)
+        if {at, bt} <= {"Nat", "Lit"}:
+            return f"(if {sym[ttext][0]} then {a} else {b})", "Nat"
+        return f"(if {sym[ttext][0]} then {rat(a, at)} else {rat(b, bt)})", "Rat"
     raise Untranslatable(f"expression {text[:60]}")
 
 
